@@ -102,6 +102,9 @@ func genDER(g *core.Gen) {
 		nt := len(b) >= 8
 		g.Case("der:"+class, nt, fmt.Sprintf("C11 der %s", hx(b)))
 		g.Case("lax:"+class, nt, fmt.Sprintf("C11 lax %s", hx(b)))
+		if class == "shape-ok" || class == "edge-s" || class == "edge-s-raw" || class == "trail" || class == "pads" || class == "len-sweep" {
+			g.Case("lows:"+class, nt, fmt.Sprintf("C11 lows %s", hx(b)))
+		}
 	}
 	base := func() derShape {
 		return derShape{seqTag: 0x30, rTag: 2, sTag: 2,
@@ -233,4 +236,5 @@ func (P) Generate(g *core.Gen) {
 	run("ssig", genSchnorrSigParse)
 	run("signverify", genSignVerify)
 	run("musig", genMusig)
+	run("extra", genExtra)
 }
